@@ -178,6 +178,13 @@ func forEachWrite(n ast.Node, imports map[string]string, sink writeSink) {
 				for _, l := range s.Lhs {
 					sink(l, "assign", s.Pos())
 				}
+			} else {
+				// `a, err := …` re-assigns an `err` that already exists in the same scope
+				for _, l := range s.Lhs {
+					if id, ok := l.(*ast.Ident); ok && id.Obj != nil && id.Obj.Decl != interface{}(s) {
+						sink(l, "assign", s.Pos())
+					}
+				}
 			}
 		case *ast.IncDecStmt:
 			sink(s.X, "incdec", s.Pos())
